@@ -368,7 +368,7 @@ def caseR (key : String) (n : Nat) (a : List Int) : Option Case :=
     some { pre := admissibleR R p && decide (-9223372036854775808 < v) && decide (v < 9223372036854775808)
            model := [x1, getRuintA C x1, ctorSignedI R p v, x2, getRuintA C x2, av % p]
            spec := fun o => checkTriples R p o [v, av] }
-  | "rmx", [p, a, v] =>
+  | "rmx", [p, a, v] | "rmx32", [p, a, v] =>
     let C := mkA n p
     let P : MgCtx := ⟨R, p, 0, 0, 0, 0⟩
     let A := toMgA C a
